@@ -33,7 +33,7 @@ CONSTANTS
 DsName == { DsSeq[k] : k \in 1..Len(DsSeq) }
 DsIdx(n) == CHOOSE k \in 1..Len(DsSeq) : DsSeq[k] = n
 ActNames == {"store", "txn", "tick", "create", "delete", "rename", "gc",
-             "restart", "compact", "dup", "read", "backup", "foreign", "lsm"}
+             "restart", "compact", "dup", "read", "backup", "foreign", "lsm", "reject"}
 
 VARIABLES
   clock,       \* logical time; every write action happens at clock+1
@@ -55,7 +55,10 @@ vars == <<clock, dsInc, nextInc, deletedInc, purgedInc, feed, nextPos,
 \* the history is hidden from the view except for one bit: whether the storage engine compacted its LSM tree.
 \* That environment step changes no abstract state, yet what follows it must still be explored.
 view == <<clock, dsInc, nextInc, deletedInc, purgedInc, feed, nextPos,
-          everStored, metaOf, rd, bk, \E i \in 1..Len(hist) : hist[i].a = "lsm">>
+          everStored, metaOf, rd, bk, \E i \in 1..Len(hist) : hist[i].a = "lsm",
+          \* ... and how many batches were refused (they change no answer either; which one it was is left to
+          \* the first history found)
+          Cardinality({ i \in 1..Len(hist) : hist[i].a = "reject" })>>
 
 MaxInc == 6
 Inc == 1..MaxInc
@@ -215,6 +218,21 @@ StoreBatch(n, b) ==
   /\ clock' = clock + 1
   /\ Log([a |-> "store", ds |-> n, b |-> b])
   /\ UNCHANGED <<dsInc, nextInc, deletedInc, purgedInc, metaOf, rd, bk>>
+
+\* A batch the hub rejects as a whole: the elements of b followed by an element the hub cannot store (the
+\* harness uses an entity of a never-used id with a null reference).  All or nothing: no answer changes,
+\* now or after a crash; the identifiers the valid elements brought along may or may not stay known, which
+\* no read API shows.
+\* As coded (named deviation, harmless for every listed property): the change-log positions the refused
+\* elements took from the dataset's sequence are not given back, so the log has a hole there - one position
+\* for every element that would have been written plus one for the element that was refused.
+RejectBatch(n, b) ==
+  /\ "reject" \in Acts /\ Exists(n) /\ n \in Writable /\ WriteOk(n, b)
+  /\ LET i == dsInc[n]
+         r == Apply(feed[i], nextPos[i], b, clock + 1)
+     IN nextPos' = [nextPos EXCEPT ![i] = r[2] + 1]
+  /\ Log([a |-> "reject", ds |-> n, b |-> b])
+  /\ UNCHANGED <<clock, dsInc, nextInc, deletedInc, purgedInc, feed, everStored, metaOf, rd, bk>>
 
 \* a transaction writes one element to each of two datasets at one instant
 ExecTxn(n1, x1, n2, x2) ==
@@ -389,6 +407,7 @@ InitCreated ==
 Next ==
   /\ Steps < MaxSteps
   /\ \/ ("store" \in Acts /\ \E n \in DsName, b \in Batches : StoreBatch(n, b))
+     \/ ("reject" \in Acts /\ \E n \in DsName, b \in Batches : Len(b) = 1 /\ RejectBatch(n, b))
      \/ ("txn" \in Acts /\ \E n1, n2 \in DsName, x1, x2 \in Ent \X CId : ExecTxn(n1, x1, n2, x2))
      \/ Tick
      \/ \E n \in DsName : CreateDs(n) \/ DeleteDs(n) \/ Compact(n)
@@ -415,6 +434,7 @@ KindsNow ==
   { k \in Acts :
       \/ k \in {"delete", "compact", "dup"} /\ LiveNames # {}
       \/ k = "store" /\ LiveNames \cap Writable # {}
+      \/ k = "reject" /\ LiveNames \cap Writable # {}
       \/ k = "txn" /\ Cardinality(LiveNames \cap Writable) >= 2
       \/ k = "create" /\ DeadNames # {} /\ nextInc <= MaxInc
       \/ k = "rename" /\ LiveNames # {} /\ DeadNames # {}
@@ -436,6 +456,8 @@ NextSample ==
                \/ StoreBatch(a1[1], <<<<a1[2], a1[3]>>>>)
                \/ (MaxBatch > 1 /\ \E a2 \in RE({ x \in Allowed : x[1] = a1[1] }) :
                       StoreBatch(a1[1], <<<<a1[2], a1[3]>>, <<a2[2], a2[3]>>>>))
+        \/ kind = "reject" /\ \E n \in RE(LiveNames \cap Writable), x \in RE(Ent \X CId) :
+                                RejectBatch(n, <<x>>)
         \/ kind = "txn" /\ \E n1 \in RE(LiveNames \cap Writable) : \E n2 \in RE((LiveNames \cap Writable) \ {n1}) :
                              \E x1 \in RE(Ent \X CId), x2 \in RE(Ent \X CId) :
                                IF DsIdx(n1) < DsIdx(n2) THEN ExecTxn(n1, x1, n2, x2) ELSE ExecTxn(n2, x2, n1, x1)
